@@ -321,3 +321,41 @@ Example C12_wsp_nonvacuous :
     = [false; false; false; false; true; false; true; false] /\
   c12w_ok [(1, 0)] wex_reqs (wrun_case true wex_env [C12WEx.p_a] [C12WEx.p_a] (winit_sess C12WEx.p_a) wex_reqs) = true.
 Proof. exact wexample_run. Qed.
+
+(* ---- Several sessions at once -------------------------------------------------------------------
+   The sessions of one server share nothing but the environment.  [mrun e ss h] runs an interleaved
+   history h (which session sends which request, in the order the server handles them) over the session
+   states ss; [srun e s qs] is one session alone; [own i h] the requests of session i. *)
+From V Require C12Multi C12MultiProofs.
+
+(* for EVERY interleaving, the responses of session i are the single-session run of its own requests:
+   what the other sessions ask, and when, has no influence *)
+Theorem C12_sessions_independent : forall e h ss i,
+  (i < length ss)%nat ->
+  C12MultiProofs.resp_of i (C12Multi.mrun e ss h) =
+  C12Multi.srun e (nth i ss C12Multi.sess_dflt) (C12Multi.own i h).
+Proof. exact C12MultiProofs.sessions_independent. Qed.
+Print Assumptions C12_sessions_independent.
+
+(* what the shared part may influence: only DESCRIBE, SETUP (multicast) and PLAY consult the stream
+   registry ([e_live]); every other request is answered identically under any registry.  In the theorem
+   above the registry is fixed during the history: a stream published or ended by ANOTHER session in
+   between (RECORD, TEARDOWN of a publisher) legitimately changes the answers to those three methods
+   — attach / publish conflicts are not interference in the sense of this property *)
+Theorem C12_step_ignores_registry : forall e e' s q,
+  (forall i, e_sdp e i = e_sdp e' i) ->
+  q_meth q <> MDescribe -> q_meth q <> MSetup -> q_meth q <> MPlay ->
+  step e s q = step e' s q.
+Proof. exact C12MultiProofs.step_ignores_registry. Qed.
+Print Assumptions C12_step_ignores_registry.
+
+(* the oracle applied to real concurrent sessions (each session's responses = the run of its own requests:
+   status class, CSeq, its own session id on every response, an SDP body exactly on DESCRIBE 2xx; ids
+   non-empty and pairwise different) accepts the model's multi-session observation for every
+   interleaving *)
+Theorem C12_multi_model_passes : forall e ss sids h,
+  length sids = length ss -> C12Multi.distinct sids = true ->
+  forallb (fun x => negb (bytes_eqb x [])) sids = true ->
+  C12Multi.ok_multi e ss sids h (C12Multi.mobserve e ss sids h) = true.
+Proof. exact C12MultiProofs.multi_model_passes. Qed.
+Print Assumptions C12_multi_model_passes.
